@@ -511,6 +511,11 @@ struct Run {
       return false;
     }
     c.count(std::string("ru.convention.") + conv);
+    {
+      bool identity = true;
+      for (int j = 0; j < n && identity; ++j) identity = Mc[j].size() == 1;
+      if (!identity) c.count("ru.factor.U_not_identity");
+    }
     if (RA) {
       std::vector<SCol> Mfull(n);
       for (int j = 0; j < n; ++j) { cur_call = "get_column(,false)"; Mfull[j] = io.column_in((unsigned)j, false); }
